@@ -225,10 +225,13 @@ static void one_case(long idx, void *arg)
     if (c.local_addr) { char la[96]; snprintf(la, sizeof la, "%s:%s:%d", c.tp == TP_UTLS_TLS ? "tls" : pr, c.local_ip, lport); xcm_attr_map_add_str(cm, "xcm.local_addr", la); }
     char addr[96]; snprintf(addr, sizeof addr, "%s:m.verif.test:%d", pr, port);     /* utls: the UX attempt is refused, the TLS half resolves the name */
     vs_connect_log_reset();
-    double t0 = vnow();
+    double t0 = vnow(); double late_look = 0;
     int outcome_errno = 0; bool up = false; const char *observer = "xcm_connect_a";
     { SCX("xcm_connect_a", 0, &plan); cl = xcm_connect_a(addr, cm); int se = errno; vs_leave(); if (!cl) outcome_errno = se; }
     xcm_attr_map_destroy(cm);
+    /* an application busy elsewhere: the resolver's answer is there in time (it arrives some tens of milliseconds after the query and is handed over at the next processing step), but the
+     * socket is first looked at after dns.timeout has run out.  The answer counts; ENOENT is for resolution that failed or took too long */
+    if (cl && c.dres == D_OK && c.deliver == VDNS_AFTER_MS && c.after / 1000.0 < c.dns_timeout - 0.04 && vrnd_p(&r, 25)) { struct pollfd none; vs_real_poll(&none, 0, (int)(c.dns_timeout * 1000) + 120); vobs("first_look_after_dns_timeout", 1); late_look = vnow() - t0; }
     unsigned char buf[256];
     double t_out = 0;
     for (int i = 0; cl && !up && !outcome_errno && i < 40000; i++) {
@@ -313,7 +316,7 @@ static void one_case(long idx, void *arg)
             if (!la || !strchr(la, ':') || strncmp(strchr(la, ':'), strchr(pfx, ':'), strlen(strchr(pfx, ':')))) { cv("wrong-source-address", &c, "xcm.local_addr was %s but the connection's local address is %s", c.local_ip, la ? la : "(null)"); goto out; }
             vobs("local_addr_verified", 1);
         }
-        double bound = (nna_before * c.connect_timeout + (c.deliver == VDNS_AFTER_MS ? c.after / 1000.0 : 0) + (any6 && any4 && c.alg == A_HAPPY ? 0.2 : 0)) * 1.5 + 1.0;
+        double bound = (nna_before * c.connect_timeout + (c.deliver == VDNS_AFTER_MS ? c.after / 1000.0 : 0) + (any6 && any4 && c.alg == A_HAPPY ? 0.2 : 0)) * 1.5 + 1.0 + late_look;
         if (t_out > bound) { cv("connect-late", &c, "established after %.2f s; %d unanswered attempt(s) x tcp.connect_timeout %.2f s allow %.2f s", t_out, nna_before, c.connect_timeout, bound); goto out; }
         vobs("connections_established", 1);
     } else {
@@ -325,7 +328,7 @@ static void one_case(long idx, void *arg)
         bool okE = false; for (int k = 0; k < ne; k++) if (outcome_errno == okerr[k]) okE = true;
         if (!okE) { cv("failure-errno", &c, "%s reported errno %d (%s); the last failed attempt %s", observer, outcome_errno, outcome_errno > 0 ? strerror(outcome_errno) : "close", okerr[0] == ECONNREFUSED ? "was refused (ECONNREFUSED)" : "timed out (ETIMEDOUT)"); goto out; }
         int nna_all = 0; for (int i = 0; i < neff; i++) if (c.c[i].beh == B_NOANSWER) nna_all++;
-        double bound = (nna_all * c.connect_timeout + (c.deliver == VDNS_AFTER_MS ? c.after / 1000.0 : 0) + 0.2) * 1.5 + 1.0;
+        double bound = (nna_all * c.connect_timeout + (c.deliver == VDNS_AFTER_MS ? c.after / 1000.0 : 0) + 0.2) * 1.5 + 1.0 + late_look;
         if (t_out > bound) { cv("failure-late", &c, "failure surfaced after %.2f s; bound %.2f s", t_out, bound); goto out; }
         /* sticky */
         for (int k = 0; cl && k < 3; k++) { SCX("xcm_finish", 0, &plan); int f = xcm_finish(cl); int fe = errno; vs_leave(); if (f == 0 || fe != outcome_errno) { cv("failure-not-sticky", &c, "xcm_finish returned %d errno %d after the establishment had failed with %d", f, fe, outcome_errno); goto out; } }
